@@ -84,7 +84,7 @@ class Orchestrator:
             if (
                 not overwrite_fitted_strategies
                 and self.results.check_fitted_strategy_exists(
-                    strategy, data.dataset_name
+                    strategy.name, dataset.name, cv_fold
                 )
             ):
                 log.warn(
@@ -101,7 +101,7 @@ class Orchestrator:
                 )
                 strategy.fit(task, train)
                 self.results.save_fitted_strategy(
-                    strategy=strategy, dataset_name=data.dataset_name, cv_fold=cv_fold
+                    strategy=strategy, dataset_name=dataset.name, cv_fold=cv_fold
                 )
 
     def predict(
